@@ -25,6 +25,18 @@ using seqmc::Step;
 struct DlLog
 {
     std::map<void*, int> outstanding; // handle -> opens minus closes (as caused by the code under test)
+    std::map<void*, char> lib_of;     // handle -> 'a' | 'b' | 's' (self) | '?'
+    int out_of(char which) const
+    {
+        int n = 0;
+        for (auto& kv : outstanding)
+        {
+            auto it = lib_of.find(kv.first);
+            if (it != lib_of.end() && it->second == which)
+                n += kv.second;
+        }
+        return n;
+    }
     long opens = 0, failed_opens = 0, closes = 0;
     std::vector<std::string> errors;
     bool active = false;
@@ -56,6 +68,8 @@ extern "C" void* dlopen(const char* file, int mode)
         {
             l.opens++;
             l.outstanding[h]++;
+            std::string f = file ? file : "";
+            l.lib_of[h] = !file ? 's' : f.find("libvp_a") != std::string::npos ? 'a' : f.find("libvp_b") != std::string::npos ? 'b' : '?';
         }
         else
             l.failed_opens++;
@@ -365,18 +379,17 @@ static void observe(World& w, std::vector<Finding>& f, const std::string& ctx)
         if (groups == 0 && m)
             f.push_back({ "library-not-closed-after-last-holder-died", std::string("libvp_") + which + " is still mapped although nothing refers to it " + ctx });
     }
-    long expect_outstanding = 0;
-    std::set<int> gs;
-    for (int i = 0; i < NL; i++)
-        if (w.rlib[i])
-            gs.insert(w.rlib[i]);
-    for (int j = 0; j < NS; j++)
-        if (w.rsym[j])
-            gs.insert(w.rsym[j]);
-    expect_outstanding = static_cast<long>(gs.size());
-    if (l.opens - l.closes != expect_outstanding)
-        f.push_back({ l.opens - l.closes > expect_outstanding ? "dlclose-missing" : "dlclose-too-early-or-twice",
-                      std::to_string(l.opens) + " successful dlopen, " + std::to_string(l.closes) + " dlclose, but " + std::to_string(expect_outstanding) + " open(s) still have holders " + ctx });
+    // open/close balance per library: some successful dlopen must be outstanding exactly while a holder lives (how many
+    // dlopen calls the wrapper uses per object is its own business)
+    for (char which : { 'a', 'b', 's' })
+    {
+        int groups = w.live_groups(which);
+        int out = l.out_of(which);
+        if (groups > 0 && out <= 0)
+            f.push_back({ "dlclose-too-early-or-twice", std::string("library '") + which + "': every dlopen has been closed although " + std::to_string(groups) + " open(s) still have holders " + ctx });
+        if (groups == 0 && out > 0)
+            f.push_back({ "dlclose-missing", std::string("library '") + which + "': " + std::to_string(out) + " dlopen call(s) not closed although nothing refers to the library any more " + ctx });
+    }
     for (auto& e : l.errors)
         f.push_back({ "dlclose-too-early-or-twice", e + " " + ctx });
     l.errors.clear();
